@@ -291,6 +291,56 @@ def canon(key):
     return "%d%d" % key.v
 
 
+def _dev(a, b):
+    """largest absolute difference; positions that are non-finite in BOTH arrays in the same way (the adiabatic value where the heat
+    capacity underflows to zero at very low T is legitimately NaN) count as equal, a differing non-finite pattern as infinite"""
+    a, b = numpy.asarray(a, dtype=float), numpy.asarray(b, dtype=float)
+    if a.shape != b.shape:
+        return float("inf")
+    fa, fb = numpy.isfinite(a), numpy.isfinite(b)
+    if not numpy.array_equal(fa, fb) or not numpy.array_equal(numpy.isnan(a), numpy.isnan(b)):
+        return float("inf")
+    if not fa.any():
+        return 0.0
+    return float(numpy.max(numpy.abs(a[fa] - b[fa])))
+
+
+class _Cancelled(BaseException):
+    pass
+
+
+def aborted_request(calc, strain, history, at_line):
+    """an earlier request on the same calculator that is cancelled at its k-th cij line event (inside resolve or calculate) and
+    abandoned -- process history for the requests that follow.  Returns the source site at which it was cut, or None if it finished first."""
+    from cij.util import c_
+    from cij.core.tasks import PhononContributionTaskList
+    repo = os.path.realpath(os.environ.get("CIJSIM_REPO", "/repo")) + "/cij/"
+    state = {"n": 0, "site": None}
+
+    def local(frame, event, arg):
+        if event == "line":
+            state["n"] += 1
+            if state["n"] >= at_line and state["site"] is None:
+                state["site"] = f"{frame.f_code.co_filename[len(repo):]}:{frame.f_code.co_name}"
+                raise _Cancelled()
+        return local
+
+    def glob(frame, event, arg):
+        return local if frame.f_code.co_filename.startswith(repo) else None
+
+    tl = PhononContributionTaskList(calc)
+    sys.settrace(glob)
+    try:
+        tl.resolve(strain, [c_(*a) for a in history])
+        tl.calculate()
+        tl.get_isothermal_results()
+    except _Cancelled:
+        pass
+    finally:
+        sys.settrace(None)
+    return state["site"]
+
+
 def permute_key(k, perm):
     """component key under relabelling of the crystal axes: axis a -> perm[a]"""
     i, j = int(k[0]), int(k[1])
@@ -372,8 +422,18 @@ def run_world(seed, tier, world=None, histories=None, relations=True):
     mon.violations = []
     scale = max([float(numpy.max(numpy.abs(a))) for a in solo.values()] + [1e-300])
     maxdev = 0.0
+    arng = random.Random(seed ^ 0x9E3779B1)
+    aborted = {}
     for h in histories:
         sizes[len(h)] = sizes.get(len(h), 0) + 1
+        if arng.random() < 0.2:
+            # fault injection: an earlier request on the same calculator is cancelled at a seeded cij line and abandoned
+            try:
+                site = aborted_request(calc, strain, [[k] for k in arng.sample(ALL21, arng.choice([1, 3, 9, 21]))], int(10 ** arng.uniform(0, 3.7)))
+                aborted[site or "finished-before-the-cut"] = aborted.get(site or "finished-before-the-cut", 0) + 1
+            except Exception as e:
+                verdict("O-complete", f"a request that was to be cancelled raised {type(e).__name__}: {str(e)[:150]}")
+            mon.violations = []
         try:
             keys, iso, ad, tl = run_request(calc, strain, h)
             runs += 1
@@ -394,12 +454,12 @@ def run_world(seed, tier, world=None, histories=None, relations=True):
                 verdict("O-complete", f"component {k} has shape {a.shape}, grid is {(world['nt'], world['ntv'])}", history=h)
                 continue
             if k in solo:
-                dev = float(numpy.max(numpy.abs(a - solo[k]))) / scale
+                dev = _dev(a, solo[k]) / scale
                 maxdev = max(maxdev, dev)
                 if not dev <= 1e-9:
                     verdict("O-history", f"isothermal c{k} depends on the request: deviates from its singleton-request value by {dev:.3e} x scale", history=h, dev=dev)
                     break
-                dev2 = float(numpy.max(numpy.abs(numpy.asarray(ad[key]) - solo_ad[k]))) / scale
+                dev2 = _dev(ad[key], solo_ad[k]) / scale
                 if not dev2 <= 1e-9:
                     verdict("O-history", f"adiabatic c{k} depends on the request: deviates from its singleton-request value by {dev2:.3e} x scale", history=h, dev=dev2)
                     break
@@ -429,7 +489,7 @@ def run_world(seed, tier, world=None, histories=None, relations=True):
             runs += 1
             mon.violations = []
             for key in keys:
-                dev = float(numpy.max(numpy.abs(numpy.asarray(got[key]) - numpy.asarray(ref[key])))) / scale
+                dev = _dev(got[key], ref[key]) / scale
                 if not dev <= 1e-9:
                     verdict("O-history", f"re-used task list: isothermal c{canon(key)} of request {step + 1} deviates from a fresh list's value by {dev:.3e} x scale",
                             history=h, chain_step=step)
@@ -437,6 +497,46 @@ def run_world(seed, tier, world=None, histories=None, relations=True):
             reuse_checked += 1
     except Exception as e:
         verdict("O-complete", f"re-used task list raised {type(e).__name__}: {str(e)[:150]}")
+    mon.violations = []
+    # two task lists alive at once on one calculator, their steps (resolve / calculate / collect) interleaved in a seeded order:
+    # each must return what a fresh list returns for the same (strain, request) on its own
+    interleaved_checked = 0
+    try:
+        from cij.util import c_
+        from cij.core.tasks import PhononContributionTaskList
+        irng = random.Random(seed ^ 0x2545F491)
+        for _round in range(2):
+            lists = []
+            for li in range(2):
+                S = strain if (li == 0 or irng.random() < 0.4) else alt
+                h = [[k] for k in irng.sample(ALL21, irng.choice([1, 2, 4, 8, 21]))]
+                lists.append({"S": S, "h": h, "keys": [c_(*a) for a in h], "tl": PhononContributionTaskList(calc), "step": 0, "got": None})
+            order = [0, 0, 0, 1, 1, 1]
+            irng.shuffle(order)
+            for li in order:
+                L = lists[li]
+                if L["step"] == 0:
+                    L["tl"].resolve(L["S"], L["keys"])
+                elif L["step"] == 1:
+                    L["tl"].calculate()
+                else:
+                    L["got"] = (L["tl"].get_isothermal_results(), L["tl"].get_adiabatic_results())
+                L["step"] += 1
+            runs += 2
+            mon.violations = []
+            for li, L in enumerate(lists):
+                rkeys, ref, ref_ad, _tl = run_request(calc, L["S"], L["h"])
+                runs += 1
+                mon.violations = []
+                for key in L["keys"]:
+                    dev = max(_dev(L["got"][0][key], ref[key]), _dev(L["got"][1][key], ref_ad[key])) / scale
+                    if not dev <= 1e-9:
+                        verdict("O-history", f"two task lists interleaved (step order {order}): c{canon(key)} of list {li} deviates from a fresh list's value by {dev:.3e} x scale",
+                                history=L["h"], interleaving=order)
+                        break
+                interleaved_checked += 1
+    except Exception as e:
+        verdict("O-complete", f"interleaved task lists raised {type(e).__name__}: {str(e)[:150]}")
     mon.violations = []
     # ride-along relations (differential on the same machinery, not "simulation")
     rel = {"isotropy_checked": 0, "axis_perm_checked": 0}
@@ -474,7 +574,7 @@ def run_world(seed, tier, world=None, histories=None, relations=True):
         mon.violations = []
     return {"verdicts": verdicts, "runs": runs, "stats": mon.stats, "event_digest": mon.digest(), "n_events": len(mon.events),
             "strain_kind": world.get("strain_kind"), "maxdev": maxdev, "history_sizes": {str(k): v for k, v in sizes.items()},
-            "rel": rel, "reuse_chain_steps": reuse_checked, "scale": scale, "wall": time.time() - t0, "n_histories": len(histories), "world_kind": world["kind"],
+            "rel": rel, "aborted_requests": aborted, "reuse_chain_steps": reuse_checked, "interleaved_lists_checked": interleaved_checked, "scale": scale, "wall": time.time() - t0, "n_histories": len(histories), "world_kind": world["kind"],
             "sample": {"seed": seed, "world_kind": world["kind"], "strain_kind": world.get("strain_kind"), "strain_row0": world["strain"][0], "history": histories[-1]}}
 
 
